@@ -135,10 +135,13 @@ type RefArr struct {
 	Idx    map[string]*Term // index term string -> index term (for re-keying under substitution)
 	Dirty  bool           // a write at a symbolic index happened: reads are no longer memoised by base
 	Ver    int
+	// ElemInv: a fact assumed for every element materialised by a read (set by an assumed
+	// `each(s, e, pred)` postcondition; dropped by a write at a symbolic index)
+	ElemInv func(st *State, v Val)
 }
 
 func cloneRefArr(r *RefArr) *RefArr {
-	n := &RefArr{Elem: r.Elem, Base: r.Base, Dirty: r.Dirty, Ver: r.Ver, Known: map[string]Val{}, Idx: map[string]*Term{}}
+	n := &RefArr{Elem: r.Elem, Base: r.Base, Dirty: r.Dirty, Ver: r.Ver, Known: map[string]Val{}, Idx: map[string]*Term{}, ElemInv: r.ElemInv}
 	for k, v := range r.Known {
 		n.Known[k] = v
 	}
